@@ -402,9 +402,12 @@ let check_call (f : string) (a : sx list) : string option =
   | "orswot", "rm", [m; c; o] -> cmp oop_eqb show_oop (orm (n_sx m) (rmctx_sx c)) (oop_sx o)
   | "orswot", "rm_all", [ms; c; o] -> cmp oop_eqb show_oop (orm_all (nlist_sx ms) (rmctx_sx c)) (oop_sx o)
   (* ---- mvreg *)
-  | "mvreg", "apply", [s; o; r] -> cmp mv_eqb show_mv (mvapply (mv_sx s) (mvop_sx o)) (mv_sx r)
-  | "mvreg", "merge", [s; o; r] -> cmp mv_eqb show_mv (mvmerge (mv_sx s) (mv_sx o)) (mv_sx r)
-  | "mvreg", "reset", [s; c; r] -> cmp mv_eqb show_mv (mvreset (mv_sx s) (vc_sx c)) (mv_sx r)
+  (* states are compared up to the order of the value vector: the order is not observable through
+     the properties (reads are multisets, == is order-insensitive) and every model function is
+     proved proper for permutation (proofs/MVReg.v) *)
+  | "mvreg", "apply", [s; o; r] -> cmp mv_perm_eqb show_mv (mvapply (mv_sx s) (mvop_sx o)) (mv_sx r)
+  | "mvreg", "merge", [s; o; r] -> cmp mv_perm_eqb show_mv (mvmerge (mv_sx s) (mv_sx o)) (mv_sx r)
+  | "mvreg", "reset", [s; c; r] -> cmp mv_perm_eqb show_mv (mvreset (mv_sx s) (vc_sx c)) (mv_sx r)
   | "mvreg", "read", [s; r] ->
       cmp (readctx_eqb (=)) (show_readctx (fun l -> String.concat "," (List.map show_n l))) (mvread (mv_sx s)) (readctx_sx nlist_sx r)
   | "mvreg", "read_ctx", [s; r] -> cmp (readctx_eqb (=)) (show_readctx (fun () -> "()")) (mvread_ctx (mv_sx s)) (readctx_sx unit_sx r)
@@ -695,7 +698,7 @@ let coq_case (f : string) (a : sx list) : string option =
      | "gset.apply", [s; x; r] -> Some ("nset_eqb (gs_apply (nset_of_list " ^ coq_nlist (nset_to_list (nset_sx s)) ^ ") " ^ coq_n (n_sx x) ^ ") (nset_of_list " ^ coq_nlist (nset_to_list (nset_sx r)) ^ ")")
      | "gset.merge", [s; o; r] -> Some ("nset_eqb (gs_merge (nset_of_list " ^ coq_nlist (nset_to_list (nset_sx s)) ^ ") (nset_of_list " ^ coq_nlist (nset_to_list (nset_sx o)) ^ ")) (nset_of_list " ^ coq_nlist (nset_to_list (nset_sx r)) ^ ")")
      | "orswot.validate_merge", [s; o; r] -> Some ("Bool.eqb (ovalidate_merge " ^ coq_orswot (orswot_sx s) ^ " " ^ coq_orswot (orswot_sx o) ^ ") " ^ string_of_bool (okerr r))
-     | "mvreg.reset", [s; c; r] -> Some ("mv_eqb (mvreset " ^ coq_mv (mv_sx s) ^ " " ^ coq_vc (vc_sx c) ^ ") " ^ coq_mv (mv_sx r))
+     | "mvreg.reset", [s; c; r] -> Some ("mv_perm_eqb (mvreset " ^ coq_mv (mv_sx s) ^ " " ^ coq_vc (vc_sx c) ^ ") " ^ coq_mv (mv_sx r))
      | "mapmv.apply", [s; o; r] ->
          Some ("cmap_eqb mv_dec (mapply mvreg_valops " ^ coq_cmap coq_mv (cmap_sx mv_inst s) ^ " " ^ coq_mop coq_mvop (mop_sx mv_inst o) ^ ") " ^ coq_cmap coq_mv (cmap_sx mv_inst r))
      | "mapmv.merge", [s; o; r] ->
@@ -709,7 +712,7 @@ let coq_case (f : string) (a : sx list) : string option =
      | "orswot.apply", [s; o; r] -> Some ("orswot_eqb (oapply " ^ coq_orswot (orswot_sx s) ^ " " ^ coq_oop (oop_sx o) ^ ") " ^ coq_orswot (orswot_sx r))
      | "orswot.merge", [s; o; r] -> Some ("orswot_eqb (omerge " ^ coq_orswot (orswot_sx s) ^ " " ^ coq_orswot (orswot_sx o) ^ ") " ^ coq_orswot (orswot_sx r))
      | "orswot.reset", [s; c; r] -> Some ("orswot_eqb (oreset " ^ coq_orswot (orswot_sx s) ^ " " ^ coq_vc (vc_sx c) ^ ") " ^ coq_orswot (orswot_sx r))
-     | "mvreg.apply", [s; o; r] -> (match mvop_sx o with MVPut (c, v) -> Some ("mv_eqb (mvapply " ^ coq_mv (mv_sx s) ^ " (MVPut " ^ coq_vc c ^ " " ^ coq_n v ^ ")) " ^ coq_mv (mv_sx r)))
-     | "mvreg.merge", [s; o; r] -> Some ("mv_eqb (mvmerge " ^ coq_mv (mv_sx s) ^ " " ^ coq_mv (mv_sx o) ^ ") " ^ coq_mv (mv_sx r))
+     | "mvreg.apply", [s; o; r] -> (match mvop_sx o with MVPut (c, v) -> Some ("mv_perm_eqb (mvapply " ^ coq_mv (mv_sx s) ^ " (MVPut " ^ coq_vc c ^ " " ^ coq_n v ^ ")) " ^ coq_mv (mv_sx r)))
+     | "mvreg.merge", [s; o; r] -> Some ("mv_perm_eqb (mvmerge " ^ coq_mv (mv_sx s) ^ " " ^ coq_mv (mv_sx o) ^ ") " ^ coq_mv (mv_sx r))
      | _ -> None)
   with Bad _ -> None
